@@ -185,12 +185,12 @@ Proof.
 Qed.
 
 (** the symmetric statement for suffixes *)
-Lemma SSorted_suffix_shared (A : Type) (R : A -> A -> Prop) (R_asym : forall x y, R x y -> R y x -> False)
+Lemma SSorted_suffix_shared_rev (A : Type) (R : A -> A -> Prop) (R_asym : forall x y, R x y -> R y x -> False)
       (k : nat) (a b : list A) :
   StronglySorted R a -> StronglySorted R b -> incl b a -> incl (rev (firstn k (rev a))) b ->
-  rev (firstn k (rev b)) = rev (firstn k (rev a)).
+  firstn k (rev b) = firstn k (rev a).
 Proof.
-  intros Ha Hb Hba Hab. f_equal.
+  intros Ha Hb Hba Hab.
   apply (SSorted_prefix_shared A (fun x y => R y x)).
   - intros x y H1 H2. exact (R_asym y x H1 H2).
   - apply SSorted_rev. exact Ha.
@@ -198,3 +198,9 @@ Proof.
   - intros x Hx. rewrite <- in_rev. apply Hba. rewrite in_rev. exact Hx.
   - intros x Hx. rewrite <- in_rev. apply Hab. rewrite <- in_rev. exact Hx.
 Qed.
+
+Lemma SSorted_suffix_shared (A : Type) (R : A -> A -> Prop) (R_asym : forall x y, R x y -> R y x -> False)
+      (k : nat) (a b : list A) :
+  StronglySorted R a -> StronglySorted R b -> incl b a -> incl (rev (firstn k (rev a))) b ->
+  rev (firstn k (rev b)) = rev (firstn k (rev a)).
+Proof. intros. f_equal. eapply SSorted_suffix_shared_rev; eassumption. Qed.
